@@ -108,8 +108,17 @@ func (r *Runner) runOne(ex *vm.Explorer, inst *vm.Instance, perInst time.Duratio
 		if rep.Outcome != vm.PathOK {
 			return
 		}
+		havoc := false
+		for k := range e.M.Stubs {
+			if strings.HasPrefix(k, "havoc:") {
+				havoc = true
+			}
+		}
 		if rep.PS.Flags["nontrivial"] {
 			res.Nontriv++
+			if havoc {
+				return // values of uninterpreted stubs are not reproducible natively
+			}
 			// keep a few feasibility witnesses for native validation
 			valEvery++
 			if len(res.ValModels) < 2 && valEvery%7 == 1 {
@@ -386,7 +395,7 @@ func Execute(id, tier string, seed int64, verbose bool) int {
 	if w := os.Getenv("VERIF_WORKERS"); w != "" {
 		fmt.Sscanf(w, "%d", &workers)
 	}
-	qms := 20000
+	qms := 8000
 	if tier == "thorough" {
 		qms = 120000
 	}
@@ -515,6 +524,7 @@ func Execute(id, tier string, seed int64, verbose bool) int {
 	}
 	_ = replayLog
 	confirmed, mismatches, validated := 0, []string{}, 0
+	unconfirmedHavoc := []string{}
 	newViol, knownHits := 0, map[string]bool{}
 	os.RemoveAll(filepath.Join(VerifDir, "replays", id))
 	os.MkdirAll(filepath.Join(VerifDir, "replays", id), 0o755)
@@ -523,6 +533,21 @@ func Execute(id, tier string, seed int64, verbose bool) int {
 		n := byID[fmt.Sprintf("viol-%d", i)]
 		key := keyToken(violationKey(v))
 		if !sameObs(n.Observations, v.Observed) {
+			usesHavoc := false
+			for name := range v.Inputs {
+				if strings.HasPrefix(name, "havoc#") {
+					usesHavoc = true
+				}
+			}
+			for name := range v.Model {
+				if strings.HasPrefix(name, "havoc#") {
+					usesHavoc = true
+				}
+			}
+			if usesHavoc {
+				unconfirmedHavoc = append(unconfirmedHavoc, fmt.Sprintf("%s: the witness depends on values of an uninterpreted stub and did not reproduce natively", key))
+				continue
+			}
 			mismatches = append(mismatches, fmt.Sprintf("%s: executor predicted %v, native run gave %v (escaped=%q)", key, v.Observed, n.Observations, n.Escaped))
 			continue
 		}
@@ -734,6 +759,14 @@ func Execute(id, tier string, seed int64, verbose bool) int {
 	if len(unconfirmed) > 0 {
 		for _, u := range unconfirmed {
 			fmt.Printf("INCONCLUSIVE property=%s unlocked shared store not confirmed by the race detector: %s\n", id, u)
+		}
+		code = 2
+	}
+	if len(unconfirmedHavoc) > 0 {
+		for i, u := range unconfirmedHavoc {
+			if i < 10 {
+				fmt.Printf("INCONCLUSIVE property=%s %s\n", id, u)
+			}
 		}
 		code = 2
 	}
